@@ -5,13 +5,6 @@
 
 package seccomp
 
-//@ func (a ArgumentConditions) Validate() []string   properties C07
-//@   ensures @len_iff (len(result) == 0) == forall(i, 0, len(a), a[i].Argument <= 5)
-//@   ensures @fresh own(result)
-//@   loop 1 binder k
-//@     invariant @problems_iff (len(problems) == 0) == forall(i, 0, k, a[i].Argument <= 5)
-//@     invariant @own own(problems)
-
 //@ func getSyscall(syscalls []SyscallWithConditions, syscall uint32) *SyscallWithConditions   properties C03 C07
 //@   returns_elem syscalls
 //@   ensures @found result != nil ==> (syscalls[idx(result)].Num == syscall && forall(j, 0, idx(result), syscalls[j].Num != syscall))
@@ -192,3 +185,98 @@ package seccomp
 //@     invariant @next pre && sem ==> g_taken(p.G)[nextSyscall] == !hdr
 //@     invariant @next_A {C03} pre && g_taken(p.G)[nextSyscall] ==> g_tA(p.G)[nextSyscall] == ev_nr(ev)
 //@     invariant @dead !g_live(G0) ==> !g_live(p.G) && g_taken(p.G)[action] == g_taken(G0)[action] && !g_taken(p.G)[nextSyscall] && !g_taken(p.G)[noMatch]
+
+// ---- names -> numbers, validation (C01 C03 C07) ----
+
+//@ func (o Operation) isValid() bool   properties C07
+//@   ensures @known result == knownOp(o)
+//@   loop 1 binder k
+//@     invariant @none forall(j, 0, k, Operations[j] != o)
+//@     invariant @len len(Operations) == 8 && Operations[0] == "Equal" && Operations[1] == "NotEqual" && Operations[2] == "GreaterThan" && Operations[3] == "LessThan" && Operations[4] == "GreaterOrEqual" && Operations[5] == "LessOrEqual" && Operations[6] == "BitsSet" && Operations[7] == "BitsNotSet"
+
+//@ macro condOK(c) = (c.Argument <= 5 && knownOp(c.Operation))
+//@ macro num32(g, name) = uint32(g.arch.SyscallNames[name] | g.arch.SeccompMask)
+//@ macro known(g, name) = has(g.arch.SyscallNames, name)
+//@ macro entryMatchesE(x) = (ev_nr(ev) == x.Num && (len(x.Conditions) == 0 || anyList(x, len(x.Conditions))))
+//@ macro anyEntry(sc, n) = exists(e_, 0, n, entryMatchesE(sc[e_]))
+//@ macro namesMatchUpTo(g, k) = exists(i_, 0, k, known(g, g.Names[i_]) && num32(g, g.Names[i_]) == ev_nr(ev))
+//@ macro nwcMatchUpTo(g, k) = exists(i_, 0, k, known(g, g.NamesWithCondtions[i_].Name) && num32(g, g.NamesWithCondtions[i_].Name) == ev_nr(ev) && allHoldUpTo(g.NamesWithCondtions[i_].Conditions, len(g.NamesWithCondtions[i_].Conditions)))
+//@ macro groupMatches(g) = (namesMatchUpTo(g, len(g.Names)) || nwcMatchUpTo(g, len(g.NamesWithCondtions)))
+// what C03/C07 assume of a group: every conditional entry carries at least one condition
+//@ macro groupListsNonEmpty(g) = forall(i_, 0, len(g.NamesWithCondtions), len(g.NamesWithCondtions[i_].Conditions) >= 1)
+//@ macro entriesValid(sc, n) = forall(e_, 0, n, argsValid(sc[e_]) && forall(a_, 0, len(sc[e_].Conditions), forall(b_, 0, len(sc[e_].Conditions[a_]), knownOp(sc[e_].Conditions[a_][b_].Operation))))
+//@ macro entriesNonEmptyLists(sc, n) = forall(e_, 0, n, forall(a_, 0, len(sc[e_].Conditions), len(sc[e_].Conditions[a_]) >= 1))
+
+// Validate (after the fix: argument index and operation are both checked)
+//@ func (a ArgumentConditions) Validate() []string   properties C05 C07
+//@   ensures @len_iff {C07} (len(result) == 0) == forall(i, 0, len(a), condOK(a[i]))
+//@   ensures @fresh own(result)
+//@   loop 1 binder k
+//@     invariant @problems_iff (len(problems) == 0) == forall(i, 0, k, condOK(a[i]))
+//@     invariant @own own(problems)
+
+//@ lemma anyEntryZero(sc []SyscallWithConditions)
+//@   ensures !anyEntry(sc, 0)
+//@ lemma anyEntryAppend(sc []SyscallWithConditions, sc2 []SyscallWithConditions, x SyscallWithConditions)
+//@   ensures len(sc2) == len(sc) + 1 && forall(j, 0, len(sc), sc2[j] == sc[j]) && sc2[len(sc)] == x && len(sc) >= 0 ==> anyEntry(sc2, len(sc2)) == (anyEntry(sc, len(sc)) || entryMatchesE(x))
+//@ lemma anyListSingle(x SyscallWithConditions, conds []Condition)
+//@   ensures len(x.Conditions) == 1 && x.Conditions[0] == conds ==> anyList(x, len(x.Conditions)) == allHoldUpTo(conds, len(conds))
+//@ lemma anyEntryMerge(sc []SyscallWithConditions, sc2 []SyscallWithConditions, idx int, conds []Condition)
+//@   ensures 0 <= idx && idx < len(sc) && len(sc2) == len(sc) && forall(j, 0, len(sc), j != idx ==> sc2[j] == sc[j]) && sc2[idx].Num == sc[idx].Num && len(sc[idx].Conditions) >= 1 && len(sc2[idx].Conditions) == len(sc[idx].Conditions) + 1 && forall(j, 0, len(sc[idx].Conditions), sc2[idx].Conditions[j] == sc[idx].Conditions[j]) && sc2[idx].Conditions[len(sc[idx].Conditions)] == conds ==> anyEntry(sc2, len(sc2)) == (anyEntry(sc, len(sc)) || (ev_nr(ev) == sc[idx].Num && allHoldUpTo(conds, len(conds))))
+//@ lemma namesStep(g *SyscallGroup, k int, name string)
+//@   requires g != nil && 0 <= k && k < len(g.Names) && name == g.Names[k]
+//@   ensures namesMatchUpTo(g, k+1) == (namesMatchUpTo(g, k) || (known(g, name) && num32(g, name) == ev_nr(ev)))
+//@ lemma namesZero(g *SyscallGroup)
+//@   requires g != nil
+//@   ensures !namesMatchUpTo(g, 0) && !nwcMatchUpTo(g, 0)
+//@ lemma nwcStep(g *SyscallGroup, k int, nc NameWithConditions)
+//@   requires g != nil && 0 <= k && k < len(g.NamesWithCondtions) && nc == g.NamesWithCondtions[k]
+//@   ensures nwcMatchUpTo(g, k+1) == (nwcMatchUpTo(g, k) || (known(g, nc.Name) && num32(g, nc.Name) == ev_nr(ev) && allHoldUpTo(nc.Conditions, len(nc.Conditions))))
+
+//@ macro namesKnownUpTo(g, k) = forall(i_, 0, k, known(g, g.Names[i_]))
+//@ macro namesDistinctUpTo(g, k) = forall(i_, 0, k, forall(h_, 0, i_, g.Names[h_] != g.Names[i_]))
+//@ macro namesReprUpTo(g, sc, k) = forall(i_, 0, k, exists(e_, 0, len(sc), sc[e_].Num == num32(g, g.Names[i_]) && len(sc[e_].Conditions) == 0))
+//@ macro numsDistinct(sc) = forall(e_, 0, len(sc), forall(f_, 0, e_, sc[f_].Num != sc[e_].Num))
+//@ macro nwcOKUpTo(g, k) = forall(i_, 0, k, known(g, g.NamesWithCondtions[i_].Name) && forall(b_, 0, len(g.NamesWithCondtions[i_].Conditions), condOK(g.NamesWithCondtions[i_].Conditions[b_])) && forall(h_, 0, len(g.Names), g.Names[h_] != g.NamesWithCondtions[i_].Name))
+//@ macro listOK(l) = forall(b_, 0, len(l), condOK(l[b_]))
+//@ macro entryOK(x) = forall(a_, 0, len(x.Conditions), listOK(x.Conditions[a_]))
+//@ macro entriesOK(sc) = forall(e_, 0, len(sc), entryOK(sc[e_]))
+//@ macro entryListsNonEmpty(x) = forall(a_, 0, len(x.Conditions), len(x.Conditions[a_]) >= 1)
+//@ macro entriesListsNonEmpty(sc) = forall(e_, 0, len(sc), entryListsNonEmpty(sc[e_]))
+//@ macro nwcNonEmptyUpTo(g, k) = forall(i_, 0, k, len(g.NamesWithCondtions[i_].Conditions) >= 1)
+
+//@ func (g *SyscallGroup) toSyscallsWithConditions() ([]SyscallWithConditions, error)   properties C01 C03 C05 C07
+//@   requires g != nil && g.arch != nil
+//@   ensures @err_nil_result {C07} result1 != nil ==> len(result0) == 0
+//@   ensures @semantics {C01 C03} result1 == nil ==> anyEntry(result0, len(result0)) == groupMatches(g)
+//@   ensures @fresh own(result0)
+//@   ensures @c07_names {C07} result1 == nil ==> namesKnownUpTo(g, len(g.Names))
+//@   ensures @c07_dups {C07} result1 == nil ==> namesDistinctUpTo(g, len(g.Names))
+//@   ensures @c07_nwc {C07} result1 == nil ==> nwcOKUpTo(g, len(g.NamesWithCondtions))
+//@   ensures @entries_ok {C05 C07} result1 == nil ==> entriesOK(result0)
+//@   ensures @lists_nonempty {C03} result1 == nil && nwcNonEmptyUpTo(g, len(g.NamesWithCondtions)) ==> entriesListsNonEmpty(result0)
+//@   use namesZero(g) at entry
+//@   use anyEntryZero(syscalls) at before loop 1
+//@   use namesStep(g, k1, name) at loop 1 body
+//@   use nwcStep(g, k2, nc) at loop 2 body
+//@   ghost let sc0 = syscalls at loop 2 body
+//@   use anyEntryAppend(sc0, syscalls, syscalls[len(sc0)]) at loop 2 end
+//@   use anyListSingle(syscalls[len(sc0)], nc.Conditions) at loop 2 end
+//@   use anyEntryMerge(sc0, syscalls, idx(check), nc.Conditions) at loop 2 end
+//@   loop 1 binder k1
+//@     invariant @own own(syscalls) && own(problems) && forall(j, 0, len(syscalls), own(syscalls[j].Conditions))
+//@     invariant @uncond forall(j, 0, len(syscalls), len(syscalls[j].Conditions) == 0)
+//@     invariant @sem {C01 C03} len(problems) == 0 ==> anyEntry(syscalls, len(syscalls)) == namesMatchUpTo(g, k1)
+//@     invariant @known {C07} len(problems) == 0 ==> namesKnownUpTo(g, k1)
+//@     invariant @repr {C07} len(problems) == 0 ==> namesReprUpTo(g, syscalls, k1)
+//@     invariant @dups {C07} len(problems) == 0 ==> namesDistinctUpTo(g, k1)
+//@     invariant @nums {C07} numsDistinct(syscalls)
+//@   loop 2 binder k2
+//@     invariant @own own(syscalls) && own(problems) && forall(j, 0, len(syscalls), own(syscalls[j].Conditions))
+//@     invariant @sem {C01 C03} len(problems) == 0 ==> anyEntry(syscalls, len(syscalls)) == (namesMatchUpTo(g, len(g.Names)) || nwcMatchUpTo(g, k2))
+//@     invariant @names {C07} len(problems) == 0 ==> namesKnownUpTo(g, len(g.Names)) && namesDistinctUpTo(g, len(g.Names))
+//@     invariant @repr {C07} len(problems) == 0 ==> namesReprUpTo(g, syscalls, len(g.Names))
+//@     invariant @nums {C07} numsDistinct(syscalls)
+//@     invariant @nwc {C07} len(problems) == 0 ==> nwcOKUpTo(g, k2)
+//@     invariant @entries_ok {C05 C07} entriesOK(syscalls)
+//@     invariant @lists_nonempty {C03} nwcNonEmptyUpTo(g, k2) ==> entriesListsNonEmpty(syscalls)
